@@ -313,7 +313,7 @@ def pyro_app(environ, start_response):
                 return option_request(start_response)
             else:
                 """GET POST"""
-                parameters = singlyfy_parameters(urllib.parse.parse_qs(environ["QUERY_STRING"]))
+                parameters = singlyfy_parameters(urllib.parse.parse_qs(environ["QUERY_STRING"], keep_blank_values=True))
                 return process_pyro_request(environ, path[5:], parameters, start_response)
         else:
             return invalid_request(start_response)
